@@ -110,6 +110,11 @@ CHECKS = {
             'are compared with plain reference implementations: window functions exactly, recursive smoothers in their recurrence step on their own output and in value once the seed has decayed below 1e-12; '
             'ma(matype=k) against the k-th moving average for every supported matype, sequential and not; ranges, band ordering, channel enclosure, non-negativity and price homogeneity on every series.',
             'Periods 2..60 (quick: 2,3,5,14,30,60), 8 source types (quick 3), series: constant, monotone up/down, alternating, walk, x1e6, x1e-6.', 'DESIGN.md 3/C15'),
+    'C16': ('lattice', 'exhaustive enumeration of trade-kind sequences and daily-return words through the real metrics.trades() on real ClosedTrade objects, plus exhaustive product of multi-day sessions with an independent equity oracle at every sample',
+            'Every sequence of up to 3 (quick) / 5 (thorough) trades over {win, loss, break-even} x {long, short} (+ all-wins, all-losses, break-even only, a 400/2000-trade list) at two fee rates and every word of up to 5 daily '
+            'returns over {-10%, 0, +5%, +10%} is evaluated; all identities of the statement and max drawdown, CAGR, Sharpe, Sortino, Calmar, Omega recomputed from their definitions. Sessions of 1440k+r minutes, spot and futures, '
+            'one route and two routes in both orders, holding a position / a resting entry order / nothing across midnight: every equity sample is compared with wallet + unrealised PnL (futures) or free + reserved quote + base value (spot).',
+            'Streak metrics are bounded between the strict run length and the run length that absorbs break-even trades.', 'DESIGN.md 3/C16'),
 }
 
 NOT_APPLICABLE = {}
